@@ -524,7 +524,7 @@ func Run(args []string) {
 		dir := filepath.Join(root, fmt.Sprintf("%s-k%d", j.sc.name, j.k))
 		copyDir(j.base, dir)
 		defer os.RemoveAll(dir)
-		rec := Record{Scenario: j.sc.name, K: j.k, N: len(j.muts), Mutations: j.muts}
+		rec := Record{Scenario: j.sc.name, K: j.k, N: len(j.muts), Mutations: append([]string{}, j.muts...)}
 		if j.k <= len(j.muts) {
 			_, code, o := child(dir, j.sc.name, j.k)
 			if code != 77 {
